@@ -722,7 +722,7 @@ theorem built_pages_copy_every_listed_directory (v : Variant) (cs : List Entry) 
     ∀ it l, (it, some l) ∈ n.copies → n.loc ++ [it] ∈ paths (outputs top) := by
   have hall := getPageTree_copyOk v cs
   rw [h] at hall
-  obtain ⟨h1, h2⟩ := hall n hn
+  obtain ⟨h1, h2, _⟩ := hall n hn
   exact ⟨h1, fun it l hm => copy_subdir_every_item_attempted top n it l hn hm (h2 it l hm)⟩
 
 /-- ... in particular for a run of the source under test with any project `copy_subdir` and any project encoding,
@@ -746,6 +746,24 @@ theorem copy_loop_copies_whole_directory_partial (loc : PathS) (items : List (St
     (hfree : loc ++ [it] ∉ paths st) :
     ∀ p ∈ listing, (loc ++ p.1, p.2) ∈ copyItems loc items st :=
   copyItems_complete loc items st it listing hm hnd hrooted hfree
+
+/-- **A `copy_subdir` directory is copied next to its page with everything in it** - for every page directory,
+    every variant, every page `n` that `get_page_tree` builds (`pre` = the pages written before it, `post` = after)
+    and every directory `it` of a `copy_subdir` without repetitions: if nothing occupies the place `n.loc/it` when
+    the page's `writeout` starts, every file and directory below the source is below `<output>/page/n.loc/it` at
+    the same relative path after the run, whatever the other items of the list are (missing, files, taken) and
+    whatever the later pages do.  (`_partial`: the place must be free and the directory must not be called like
+    the page file; the witness below shows the excluded class.) -/
+theorem built_page_copies_whole_directory_partial (v : Variant) (cs : List Entry) (top n : Node) (pre post : List Node)
+    (h : getPageTree v cs = .page top) (hsplit : preorder top = pre ++ n :: post)
+    (it : Str) (l : List (PathS × Bool)) (hm : (it, some l) ∈ n.copies) (hnd : n.copySub.Nodup)
+    (hfree : n.loc ++ [it] ∉ paths (pre.foldl writeNode [])) (hne : it ≠ n.file) :
+    ∀ p ∈ l, (n.loc ++ p.1, p.2) ∈ outputs top := by
+  have hall := getPageTree_copyOk v cs
+  rw [h] at hall
+  have hn : n ∈ preorder top := by rw [hsplit]; simp
+  obtain ⟨h1, _, h3⟩ := hall n hn
+  exact outputs_copies_whole top n pre post hsplit it l hm (h1 ▸ hnd) h3 hfree hne
 
 /-- The excluded class is real: when the place is taken (here by the sub-tree `sub/` written before the leaf
     page `z.md` is), the directory named by the leaf page's `copy_subdir` is not copied again, and what only the
@@ -828,9 +846,20 @@ theorem copy_probe_assets_next_to_pages :
     ∀ p ∈ expAssets copyProbeProj copyProbeDir, p ∈ copyProbeOut := by
   decide
 
-/-- Non-vacuity: the probe expects 35 assets (with repetitions: a leaf page and its index page may name the same directory), among them directories behind a missing first item. -/
+/-- ... and nothing else: everything the real code left below `<output>/page` for the probe directory is a page the
+    statement expects, a directory that holds such a page, or one of the expected assets (a page that sets its own
+    `copy_subdir` did NOT get the project's directories as well: `solo/media/`, next to a page whose own list is
+    `keep`, is not in the output). -/
+theorem copy_probe_nothing_else :
+    copyProbeOut.all (fun p =>
+      (expAssets copyProbeProj copyProbeDir).contains p ||
+      (!p.2 && (expPages copyProbeDir).contains p.1) ||
+      (p.2 && (expPages copyProbeDir).any (fun q => properPrefix p.1 q))) = true := by
+  decide
+
+/-- Non-vacuity: the probe expects 37 assets (with repetitions: a leaf page and its index page may name the same directory), among them directories behind a missing first item. -/
 example :
-    (expAssets copyProbeProj copyProbeDir).length = 35 ∧
+    (expAssets copyProbeProj copyProbeDir).length = 37 ∧
     ([pt! "tut", pt! "media", pt! "sub", pt! "deep.dat"], false) ∈ expAssets copyProbeProj copyProbeDir ∧
     ([pt! "tut", pt! "howto", pt! "downloads", pt! "tool.zip"], false) ∈ expAssets copyProbeProj copyProbeDir := by
   decide
